@@ -358,10 +358,11 @@ class Exploration(object):
         self.max_points = 0
         self.max_preemptions = 0
         self.capped = False
+        self.stopped_early = False
         self.outcomes = {}
 
 
-def explore(run, bound, max_executions=None, on_execution=None):
+def explore(run, bound, max_executions=None, on_execution=None, should_stop=None):
     """run(prefix) -> (Scheduler, outcome).  Explores every schedule with <= bound preemptions.
     on_execution(sched, outcome) is called for each complete execution.  Returns Exploration."""
     ex = Exploration()
@@ -387,6 +388,9 @@ def explore(run, bound, max_executions=None, on_execution=None):
             # choice taken at i was the default 0: no preemption added going forward
         if max_executions is not None and ex.executions >= max_executions and stack:
             ex.capped = True
+            break
+        if should_stop is not None and should_stop() and stack:
+            ex.stopped_early = True     # enough counterexamples for this case; the rest of the space is not needed
             break
     return ex
 
